@@ -48,6 +48,24 @@ CLAIMS = {
  "C17": dict(design="4/C17", text="The decoder / consumer model has no Abort outcome (NoAbort, ZeroTestExact over all 256 byte-OR values); every Codec transition (all mutations, every truncation length, every consumer), the crafted-length-prefix / short-payload / timestamp abort sites of the protocol modules, and a fuzz trace are executed under catch_unwind on the plain release build and on a build with overflow checks and debug assertions; TLC validates the trace.",
              note="non-termination would surface as a timeout (exit 2); dependency panics are observed not predicted; volume of random inputs bounded",
              tech="TLA+ abort-site model checked by TLC; replay on release and checked builds under catch_unwind; TLC validation of decoder traces"),
+ "C03": dict(design="4/C03", text="The SigNet model emits, for every KeyGen / Sign / PopProve / Aggregate transition, the operation described in the draft's own terms (tag names, framing rule and KeyGen parameters come from spec/Tags.tla); the replay compares the library's bytes with an independent evaluator (hand-written HKDF over HMAC-SHA-256, hash-to-curve and arithmetic from the pure-Rust backend), has the reference verifier accept library signatures and the library accept reference-made signatures, and TLC validates the tag constants the library exposes against the IETF ciphersuite IDs.",
+             note="no external test-vector file (no network): the evaluator's primitives are anchored by their own crates' RFC 9380 / FIPS vectors; model checking contributes structure (which tag, which framing), the deciding comparison is byte equality",
+             tech="TLA+ model supplies terms and tables; TLC-generated vectors replayed against an independent evaluator; TLC validation of the constants trace"),
+ "C04": dict(design="4/C04", text="Identity / zero guards are explicit conjuncts of every verify / decrypt / seal action in SigNet, Pok, SignCrypt, TimeLock, ElGamal, Threshold and Codec; the adversary substitutes the identity for each operand in turn and jointly (where the pairing equation becomes trivially true), zero for challenges and proof scalars, and the zero key / share for signers; TLC checks the NoIdentity* invariants on the whole models and every such transition is replayed on the real library.",
+             note="outcomes are judged, not the presence of a particular guard; sign_crypt returns no Result and cannot refuse; symbolic abstraction",
+             tech="TLA+ models with identity/zero substitution checked by TLC; replay of every such transition"),
+ "C05": dict(design="4/C05", text="Tags.Distinct and Tags.IetfConform are checked by TLC; every transition of SigNet, Pok, SignCrypt and TimeLock in which an artefact made under one scheme / purpose is presented under another is replayed on the real library (all ordered scheme pairs, PoP vs signature over the key bytes); the exposed tag constants are validated by TLC for equality with the table and pairwise distinctness; the Bind rule of the SigNet traces rejects collapsed tags.",
+             note="private salts (PoK, signcryption, time-lock, ElGamal) are checked through behaviour against the evaluator (C18), not read from the library; the time-lock scheme label is not authenticated by the construction (design fact, DESIGN.md)",
+             tech="TLA+ models checked by TLC (constants table + cross-scheme presentation); replay; TLC validation of the constants trace"),
+ "C18": dict(design="4/C18", text="(a) A golden corpus recorded once from the pinned release (every type x group x variant x value class in three encodings; signatures, ciphertexts, proofs, share sets, aggregates with their consumers' results; deterministic operations) is replayed into the current tree and TLC validates Consume_current(Produce_pinned(x)) = Consume_pinned(x) per class; (b) every honest seal / prove transition of SignCrypt, TimeLock, ElGamal and Pok is executed with the independent implementation opening what the library seals and the library opening what the independent implementation seals.",
+             note="corpus pinned to 4bdca94, entries touching repaired defects excluded (golden/README.md); independent implementation built from spec tables + primitives",
+             tech="golden-corpus trace validated by TLC (Trace_Interop); TLC-generated vectors replayed in both directions against an independent implementation"),
+ "C19": dict(design="4/C19", text="Both feature configurations are built from the current tree; every deterministic output (encodings of all types, key derivation incl. facade and seeded generators, signatures, PoPs, aggregates of up to 17 signers with verdicts, share recombination, challenges, generators, hash outputs, pairing bytes, wide reduction) is hashed on both nodes and TLC validates equal-call => equal-output; randomized artefacts of each build are consumed by the other with the recorded result; model vectors replayed on the pure-Rust build.",
+             note="both builds run on this machine; value classes and seeds bounded",
+             tech="two-node Interop trace (blst / rust builds) validated by TLC; cross-consumption of randomized artefacts; replay on the second backend"),
+ "C20": dict(design="4/C20", text="TLC exhausts all interleavings of 2 processes x 2 threads of the Rng model with per-call fresh-entropy generators (NoReuse, FreshGenerators) and refutes four faulty seeding disciplines (clock-seeded, shared static, per-thread counters, fork-inherited); every randomized entry point is called N times with identical arguments on T threads in P simultaneously started processes, logging observables injective in the ephemerals plus the fingerprint of every generator (hook); TLC validates the log as Draw actions enabled only for never-seen values.",
+             note="OS entropy modelled as an unbounded pool of distinct seeds; N, T, P bounded (48 x 4 x 2 quick; 512 x 16 x 4 thorough); 96-bit hash prefixes stand for the observables",
+             tech="TLA+ interleaving model checked by TLC with refuted faulty variants; TLC trace validation of multi-thread / multi-process recordings through a generator hook"),
 }
 
 def main():
